@@ -26,7 +26,7 @@ def q(tier, quick, thorough):
 
 
 def recipe(c: Check):
-    c.build(["Properties/C11.vo", "Corr/C11.vo"], harness=["c11"])
+    c.build(["Properties/C11.vo", "Corr/C11.vo"], harness=["c11"], units=["t11send"])
     c.obligations("C11")
     st = c.run_driver("pool", q(c.tier, 120, 1200), shards=q(c.tier, 6, 16))
     cnt = c.cov.get("coq_counters", {}).get("pool", {})
@@ -44,6 +44,15 @@ def recipe(c: Check):
             if dist.get(k, 0) <= 0:
                 c.broken.append(dict(kind="coverage", name="pool driver never performed %s" % k, detail=str(dist)))
     st2 = c.run_driver("handoff", q(c.tier, 24, 120), shards=1)
+    st4 = c.run_driver("sendfault", q(c.tier, 2, 8), shards=1)
+    scnt = c.cov.get("coq_counters", {}).get("sendfault", {})
+    if st4:
+        if scnt.get("SMON", 0) != 0:
+            c.failures.append(dict(key="monitor:sendfault", driver="sendfault",
+                                   what="C11_holds fails on %d observed write-fault trace(s): a user connection left open past its timeout" % scnt.get("SMON"),
+                                   case="see mismatches of C11_holds in the sendfault case shard"))
+        if scnt.get("NWFAIL", 0) <= 0:
+            c.broken.append(dict(kind="coverage", name="sendfault driver produced no write-fault case", detail=str(scnt)))
     st3 = c.run_driver("visitor", q(c.tier, 40, 400), shards=q(c.tier, 1, 4))
     vcnt = c.cov.get("coq_counters", {}).get("visitor", {})
     if st3:
@@ -56,13 +65,15 @@ def recipe(c: Check):
             if d3.get(k, 0) <= 0:
                 c.broken.append(dict(kind="coverage", name="visitor driver never reached %s" % k, detail=str(d3)))
     return c.finish(
-        rule="pool driver: one scripted client session per case against an in-process frps (userConnTimeout=1 s, maxPoolCount 1/2/3/5, "
+        rule="pool driver: one scripted client session per case against an in-process frps (userConnTimeout=1 s, maxPoolCount -1/0(->5)/1/2/3/5, "
              "Login.PoolCount from -100 to 50, two tcp proxies); one action at a time (offer a work connection, open a user connection "
              "from its own loopback address, reset a pooled connection, wait for the timer, end the session, offer a connection while the "
              "NewWorkConn plugin call / the teardown gate holds the window open), quiescence after each; compared with the model run on the "
              "same thread programs and schedule: ReqWorkConn received so far and len(workConnCh) at every checkpoint, StartWorkConn "
              "contents per socket, final fate of every work and user socket; bytes are sent both ways over every bridged pair. "
              "handoff driver: real vhost.Muxer / TCPGroup / TCPMuxGroup with the receiving listener closed between lookup and send. "
+             "sendfault driver: a session registered over a pipe whose server-side writes start failing while reads stay open, then 104-123 users "
+             "(more than sendCh holds) with no work connection delivered: every one must be closed by userConnTimeout. "
              "visitor driver: real InternalListener under random orders of PutConn/Close/Accept (incl. the 128-slot queue overflowing), and a "
              "real STCPProxy + visitor.Manager whose real accept goroutine runs before the queueing or only after pxy.Close(). "
              "distinct = distinct case text; every case is non-trivial (at least one connection arrives)",
